@@ -188,6 +188,10 @@ where
         ops_with_idx.iter().find(|(_, op)| {
             let range_end = byte_offset + op.repr().len();
             if let Some(maybe_op) = text.get(byte_offset..range_end) {
+                #[cfg(exmex_verif)]
+                if op.repr() == maybe_op && !op.has_bin() && range_end < text.len() {
+                    crate::verif::point(crate::verif::Site::RegexUse);
+                }
                 op.repr() == maybe_op
                     && (op.has_bin()
                         || range_end >= text.len()
@@ -204,6 +208,8 @@ where
     let mut close_additional_paren = false;
     let mut open_paren_count = 0;
     for (i, c) in text.char_indices() {
+        #[cfg(exmex_verif)]
+        crate::verif::point(crate::verif::Site::TokenStep);
         if c == ' ' && i == cur_byte_offset {
             cur_byte_offset += 1;
         } else if i == cur_byte_offset && cur_byte_offset < text.len() {
@@ -265,6 +271,8 @@ where
                     None => ParsedToken::<T>::Op((*idx, (*op).clone())),
                 });
             } else if let Some(var_str) = RE_VAR_NAME.find(text_rest) {
+                #[cfg(exmex_verif)]
+                crate::verif::point(crate::verif::Site::RegexUse);
                 let var_str = var_str.as_str();
                 let n_bytes = var_str.len();
                 cur_byte_offset += n_bytes;
